@@ -79,6 +79,47 @@ def probe(A, B, nx, ny, ck, fails, name, chunk=None):
     return evals, float(np.abs(MA).max())
 
 
+def probe_large(A, B, nx, ny, ck, fails, name):
+    """Large layouts: every unit vector of the (small) input space through A, and B on a fixed family of probe vectors
+    that cover the whole output space blockwise (indicators of consecutive index ranges of 16384 entries, the single
+    entries at the range boundaries, a dense vector): B y_k must equal A^T y_k for every probe."""
+    bounds = list(range(0, ny, 16384)) + [ny]
+    probes = []
+    for a, b in zip(bounds[:-1], bounds[1:]):
+        y = np.zeros(ny)
+        y[a:b] = 1.0 + 0.25 * np.cos(np.arange(a, b))
+        probes.append(y)
+    for i in sorted(set([0, ny - 1] + [b for b in bounds[1:-1]] + [b - 1 for b in bounds[1:-1]])):
+        y = np.zeros(ny)
+        y[i] = 1.0
+        probes.append(y)
+    probes.append(np.sin(0.37 * np.arange(ny)) + 0.1)
+    P = np.array(probes)  # (K, ny)
+    ATy = np.zeros((len(probes), nx))
+    amax = 0.0
+    for j in range(nx):
+        e = np.zeros(nx)
+        e[j] = 1.0
+        col = A(e)
+        amax = max(amax, float(np.abs(col).max()))
+        ATy[:, j] = P @ col
+    evals = nx
+    worst = 0.0
+    for k, y in enumerate(probes):
+        By = B(y.copy())
+        evals += 1
+        scale = max(1.0, float(np.abs(ATy[k]).max()))
+        err = float(np.abs(By - ATy[k]).max()) / scale
+        worst = max(worst, err)
+        if not err <= 1e-11:
+            j = int(np.argmax(np.abs(By - ATy[k])))
+            fails.append({"key": "not-adjoint-large;op=%s;%s" % (name, ck),
+                          "msg": "backward != forward^T for %s on probe vector %d of %d (%d x %d operator): (B y)[%d] = %.9g, (A^T y)[%d] = %.9g" % (
+                              name, k, len(probes), ny, nx, j, By[j], j, ATy[k][j])})
+            break
+    return evals, amax
+
+
 # ----------------------------------------------------------------------------- layouts
 LAYOUTS = {
     # name: (mol, atom_grid, lmax, prune)
@@ -92,8 +133,14 @@ LAYOUTS = {
     "HF-4x14-l2": ("HF", (4, 14), 2, None),
     "H2O-3x14-l2": ("H2O", (3, 14), 2, None),
     "He-4x14-l1": ("He", (4, 14), 1, None),
+    # "large" layouts: thousands of points in one radial shell of one atom, so that any internal blocking / buffer
+    # threshold of the interpolation routines that small layouts never reach is crossed (probed partially, see below)
+    "He-3x5810-l1": ("He", (3, 5810), 1, None),
+    "HF-2x3470-l1": ("HF", (2, 3470), 1, None),
 }
-TINY_NLDF = dict(aux_lambd=4.0, nrad=7, alpha_max=40.0, alpha_min=0.1)
+# 7 radial spline nodes spread over 0 ... 16 Bohr (dparam 0.9): with the default spacing they would end at 0.01 Bohr and the
+# interpolation operators would only ever see their out-of-range branch
+TINY_NLDF = dict(aux_lambd=4.0, nrad=7, dparam=0.9, alpha_max=40.0, alpha_min=0.1)
 
 
 def make_gen(layout, fam="VIJ", plan="gaussian", interp="onsite_direct", sl="npa", alpha_formula=None, nspin=1):
@@ -325,6 +372,13 @@ def initial_cases(tier, seed):
                 if thr == 3 and (fam != "VIJ" or not lay.startswith("He")):
                     continue
                 cases.append({"op": op, "layout": lay, "fam": fam, "interp": interp, "threads": thr, "seed": seed})
+    # 3b. the same operators on large layouts (partial probing)
+    for lay in ("He-3x5810-l1", "HF-2x3470-l1"):
+        for interp in ("onsite_direct", "onsite_spline", "train_gen"):
+            for op in ("interp", "interp_only"):  # operators whose INPUT space is small (orbital / spline space)
+                if quick and ((lay, interp) not in (("He-3x5810-l1", "onsite_direct"), ("HF-2x3470-l1", "onsite_spline"), ("He-3x5810-l1", "train_gen")) or op != "interp"):
+                    continue
+                cases.append({"op": op, "layout": lay, "fam": "VIJ", "interp": interp, "threads": 1, "large": True, "seed": seed})
     # 4. interpolation-coefficient transforms (pure linear algebra): both plans, both orders, every i
     for plan, order, fam in itertools.product(["gaussian", "spline"], ["gq", "qg"], ["VJ", "VIJ", "VK"]):
         for i in (-1, 0, 1):
@@ -459,7 +513,10 @@ def _run_case(case):
         A, B, nx, ny, st = op_composite(gen)
     else:
         raise ValueError(op)
-    ev, nrm = probe(A, B, nx, ny, ck, fails, op)
+    if case.get("large"):
+        ev, nrm = probe_large(A, B, nx, ny, ck, fails, op)
+    else:
+        ev, nrm = probe(A, B, nx, ny, ck, fails, op)
     if st.get("outside"):
         fails.append({"key": "writes-outside-block;op=%s;%s" % (op, ck), "msg": "%s wrote outside the [offset, offset+nalpha) block of its output" % op})
     return {"fail": fails, "evals": ev, "outcome": [op, nx, ny, float("%.8e" % nrm)], "info": {"nx": nx, "ny": ny}}
